@@ -216,6 +216,9 @@ def run(tier):
     # of the contract (valid => B's bytes on disk, confinement, source untouched) still holds; completion is not demanded
     from .. import allocfault
     atrace, aowner, ascripts = allocfault.delta_family(ck, tier, wd, rnd)
+    # a ranged round that writes at file offsets beyond 2^31 (thorough: 2^32): sparse files, facts read at the extents
+    from .. import sparsedelta
+    sparsedelta.run(ck, "C05", tier, wd, rnd, atrace, aowner, ascripts, with_round=True)
     validate_segments(ck, "C05", atrace, aowner, wd, scripts_by=ascripts, module="Trace_Delta", cfg="Trace_Delta.cfg", start_ops=("begin",))
     if not ck.violations:
         good = [t for t, o in zip(trace, owner) if o == groups[2][0].cid][:12]
